@@ -197,3 +197,319 @@ Proof.
   - split; [repeat constructor; simpl; intuition discriminate|].
     split; vm_compute; [reflexivity | split; reflexivity].
 Qed.
+
+(* ================================================================================================ *)
+(* Extension (session 3): from the fstree to the image (coq/ImgScan)                                *)
+(* ================================================================================================ *)
+(* The theorems above end at the fstree, the inode numbers and the file list.  Here they are carried to the image through
+   the layer models that exist by now:
+     ImgPost.Bridge.to_img            what sqfs_serialize_fstree reads from the post-processed fstree
+     Img.TreeModel.serialize_fstree   inode table, directory table, id table, root reference (C01 / C03 components)
+     C02.BpModel.run                  the block processor on fs->files in packing order, over ANY worker pool
+     Image.FinishModel.write_image    sqfs_writer_finish: super block, tables, padding -> the bytes of the file
+   composed in ImgScan.PackModel: [scan_tables] (host directory -> tables, file inodes abstract) and [pack_image]
+   (host directory -> whole image).  [order_free_case sorted cfg t] is the disjunction of the cases in which the scan is
+   proved order independent: sorted = true (the native iterator as it is now, fixes/F09), or -H / -nohardlinks, or a
+   directory without multiply-linked files.
+
+   What stays a parameter shared by the two runs that are compared (i.e. is ASSUMED equal, not derived from the host):
+     host_file   the flag word and the bytes read for a file NAME (pack_file opens node->data.file.input_file, or the path
+                 of the node; the names, and the order in which they are opened, are proved equal: file_list_order_free)
+     xa, xsec    xattr index per node and the xattr section (apply_xattrs / -x are not modelled)
+     opts        compressor options;  bw_bytes: the projection of the abstract block writer state to the bytes it appended
+   Not modelled: the sort file (-S), I/O errors, option parsing. *)
+From SqfsV Require C03.Common C01.Res C01.InodeModel Img.TreeModel.
+From SqfsV Require C02.BpModel C02.BpProofs Image.FinishModel.
+From SqfsV Require Import ImgPost.Bridge ImgPost.InputOk ImgPost.PathsModel ImgPost.PathsProofs.
+From SqfsV Require Import ImgScan.PackModel ImgScan.PackProofs ImgScan.ScanAdds ImgScan.Example.
+
+(* scan_order_free_image: inode table, directory table, id table, root reference, inode references, the inode number of
+   every path and fs->files are EQUAL for every two enumeration orders — for every metadata compressor, id table limit,
+   initial fstree, and whatever file inodes [fb] and xattr indices [xa] the rest of the packer attaches to the paths *)
+Theorem scan_order_free_image :
+  forall (fnmatch : list N -> list N -> bool -> bool) dflt cfg mcompress limit fb xa sorted t t' fs0,
+  hwf t -> hperm t t' -> order_free_case sorted cfg t ->
+  scan_tables fnmatch dflt cfg mcompress limit fb xa sorted t fs0 =
+  scan_tables fnmatch dflt cfg mcompress limit fb xa sorted t' fs0.
+Proof. exact scan_tables_order_free. Qed.
+Print Assumptions scan_order_free_image.
+
+(* file_list_order_free: the files handed to the block processor — fs->files in packing order — and the host file names
+   pack_files opens for them are the same list *)
+Theorem file_list_order_free :
+  forall (fnmatch : list N -> list N -> bool -> bool) dflt cfg sorted t t' fs0,
+  hwf t -> hperm t t' -> order_free_case sorted cfg t ->
+  scan_files fnmatch dflt cfg sorted t fs0 = scan_files fnmatch dflt cfg sorted t' fs0.
+Proof. exact file_list_order_free_l. Qed.
+Print Assumptions file_list_order_free.
+
+(* pack_image_order_free: the whole run.  Two enumeration orders, two worker pools of any type satisfying the FIFO laws
+   C09 proves of threadpool.c (worker count and schedule are inside the pool state), two backlogs: the same outcome —
+   the same super blocks, data area, tables, padding, output trace (C02's refinement theorem for the data path, the
+   function-ness of serializer and finish for the rest).  Hypotheses besides C11's: block size > 0, the flag word of
+   every file has user-settable bits only and no chunk is empty (C02's file_ok). *)
+Theorem pack_image_order_free :
+  forall (fnmatch : list N -> list N -> bool -> bool) dflt cfg hash dcompress
+         HT ht_search ht_insert BW bw_write bw_bytes host_file xa xsec opts mcompress limit wc
+         P1 sub1 deq1 alpha1 P2 sub2 deq2 alpha2 sorted q1 q2 p1 p2 (ht0 : HT) (bw0 : BW) t t' fs0,
+  fifo_laws hash dcompress P1 sub1 deq1 alpha1 -> alpha1 p1 = [] ->
+  fifo_laws hash dcompress P2 sub2 deq2 alpha2 -> alpha2 p2 = [] ->
+  (0 < FinishModel.c_block_size wc)%N -> (forall nm, BpProofs.file_ok (host_file nm)) ->
+  hwf t -> hperm t t' -> order_free_case sorted cfg t ->
+  pack_image fnmatch dflt cfg HT ht_search ht_insert BW bw_write bw_bytes host_file xa xsec opts mcompress limit wc
+             P1 sub1 deq1 sorted q1 p1 ht0 bw0 t fs0 =
+  pack_image fnmatch dflt cfg HT ht_search ht_insert BW bw_write bw_bytes host_file xa xsec opts mcompress limit wc
+             P2 sub2 deq2 sorted q2 p2 ht0 bw0 t' fs0.
+Proof. exact pack_image_order_free_l. Qed.
+Print Assumptions pack_image_order_free.
+
+(* ... hence every byte of the file *)
+Theorem image_bytes_order_free :
+  forall (fnmatch : list N -> list N -> bool -> bool) dflt cfg hash dcompress
+         HT ht_search ht_insert BW bw_write bw_bytes host_file xa xsec opts mcompress limit wc
+         P1 sub1 deq1 alpha1 P2 sub2 deq2 alpha2 sorted q1 q2 p1 p2 (ht0 : HT) (bw0 : BW) t t' fs0,
+  fifo_laws hash dcompress P1 sub1 deq1 alpha1 -> alpha1 p1 = [] ->
+  fifo_laws hash dcompress P2 sub2 deq2 alpha2 -> alpha2 p2 = [] ->
+  (0 < FinishModel.c_block_size wc)%N -> (forall nm, BpProofs.file_ok (host_file nm)) ->
+  hwf t -> hperm t t' -> order_free_case sorted cfg t ->
+  image_file (pack_image fnmatch dflt cfg HT ht_search ht_insert BW bw_write bw_bytes host_file xa xsec opts mcompress
+                         limit wc P1 sub1 deq1 sorted q1 p1 ht0 bw0 t fs0) =
+  image_file (pack_image fnmatch dflt cfg HT ht_search ht_insert BW bw_write bw_bytes host_file xa xsec opts mcompress
+                         limit wc P2 sub2 deq2 sorted q2 p2 ht0 bw0 t' fs0).
+Proof. exact image_file_order_free_l. Qed.
+Print Assumptions image_bytes_order_free.
+
+(* the composed model is not equal on both sides because the data path fell over: it never does (C02), and every run IS
+   the in-order specification [image_spec] applied to the post-processed tree *)
+Theorem pack_image_is_function_of_tree :
+  forall (fnmatch : list N -> list N -> bool -> bool) dflt cfg hash dcompress
+         HT ht_search ht_insert BW bw_write bw_bytes host_file xa xsec opts mcompress limit wc
+         P sub deq alpha sorted q p0 (ht0 : HT) (bw0 : BW) t fs0,
+  fifo_laws hash dcompress P sub deq alpha -> alpha p0 = [] ->
+  (0 < FinishModel.c_block_size wc)%N -> (forall nm, BpProofs.file_ok (host_file nm)) ->
+  pack_image fnmatch dflt cfg HT ht_search ht_insert BW bw_write bw_bytes host_file xa xsec opts mcompress limit wc
+             P sub deq sorted q p0 ht0 bw0 t fs0 =
+  match scan_post fnmatch dflt cfg sorted t fs0 with
+  | None => IScanErr
+  | Some PErr => IPostErr
+  | Some PFuel => IPostLoop
+  | Some (POk pp) =>
+      IImage (image_spec hash dcompress HT ht_search ht_insert BW bw_write bw_bytes host_file xa xsec opts mcompress limit
+                         wc ht0 bw0 pp)
+  end.
+Proof. exact pack_image_is_spec. Qed.
+Print Assumptions pack_image_is_function_of_tree.
+
+(* scan_is_run_adds: the fstree a scan leaves is the result of the fstree_add_generic calls scan_directory made, in the
+   order of delivery — the scan is a packing run in the sense of ImgPost (Properties_C01 section 5) *)
+Theorem scan_is_run_adds :
+  forall (fnmatch : list N -> list N -> bool -> bool) dflt cfg sorted t fs0 fs stream,
+  scan_dir fnmatch dflt cfg sorted t fs0 = Some (fs, stream) ->
+  run_adds dflt fs0 (ops_of_stream stream) = Some fs.
+Proof. exact scan_is_run_adds_l. Qed.
+Print Assumptions scan_is_run_adds.
+
+(* scan_image_reads_back: ... so under ImgPost's input bounds on those calls the tables (the same for every enumeration
+   order) are the tables of a representable tree and read back, through the reader specification of coq/Img, as exactly
+   the paths of the scanned tree with their attributes, two paths carrying one inode number iff they are hard links of
+   each other (C01.pack_paths_roundtrip instantiated with the scan) *)
+Theorem scan_image_reads_back :
+  forall compress uncompress,
+  (forall b c, compress b = Common.CData c -> (Common.lenN c <= Common.lenN b)%N /\ uncompress c = Some b) ->
+  forall limit, (limit <= 65536)%N ->
+  forall (fnmatch : list N -> list N -> bool -> bool) dflt cfg sorted t bs fs stream pp fb xa img,
+  scan_dir fnmatch dflt cfg sorted t (fs_init dflt) = Some (fs, stream) ->
+  input_okb bs dflt (ops_of_stream stream) = true ->
+  post_process fs = POk pp ->
+  attached_okb bs fb xa pp = true ->
+  TreeModel.serialize_fstree compress limit (to_img fb xa pp) = Res.Ok img ->
+  TreeModel.trace_fits img = true ->
+  TreeModel.representable bs (to_img fb xa pp) = true /\
+  exists lt fl,
+    TreeModel.read_tree uncompress bs (TreeModel.si_itbl img) (TreeModel.si_dtbl img) (TreeModel.si_ids img)
+                        (length (pp_inodes pp)) (TreeModel.si_root img) = Some lt /\
+    denotes fb xa (fs_root fs) fl /\
+    flat_lt [] lt = map (number (pp_inodes pp)) fl /\
+    (forall x y, In x fl -> In y fl -> ino_of (pp_inodes pp) (snd x) = ino_of (pp_inodes pp) (snd y) -> snd x = snd y).
+Proof. exact scan_image_reads_back_l. Qed.
+Print Assumptions scan_image_reads_back.
+
+(* ---- non-vacuity ---- *)
+(* a, b -> a, c (fifo), d/{x, y, e/f}, m (second name of a), n (chr 1:3), z in two enumeration orders (every directory
+   reversed): hypotheses hold, same tables; inode numbers as alloc_inode_num_dfs assigns them *)
+Example ex_scan_order_free_image :
+  hwf x_tree /\ hperm x_tree x_tree' /\ x_tree <> x_tree' /\ order_free_case true x_cfg x_tree /\
+  x_tables true x_tree = x_tables true x_tree' /\
+  match x_tables true x_tree with
+  | TSer (Res.Ok tb) =>
+      tb_inodes tb = [[nD; nE; nF]; [nD; nE]; [nD; nX]; [nD; nY]; [nA]; [nB]; [nC]; [nD]; [nN]; [nZ]; []] /\
+      tb_files tb = [[nA]; [nD; nE; nF]; [nD; nX]; [nD; nY]; [nZ]] /\
+      tb_ids tb = [1000; 100; 0; 5]%N /\
+      (Common.lenN (tb_itbl tb) =? 0)%N = false /\ (Common.lenN (tb_dtbl tb) =? 0)%N = false
+  | _ => False
+  end.
+Proof. exact ex_scan_tables. Qed.
+Example ex_scan_order_free_image_nohl :
+  order_free_case false x_cfg_nohl x_tree /\
+  scan_tables x_fnmatch x_dflt x_cfg_nohl (TreeModel.img_compress 3) GenC01.c_id_table_limit x_fb x_xa false x_tree
+              (fs_init x_dflt) =
+  scan_tables x_fnmatch x_dflt x_cfg_nohl (TreeModel.img_compress 3) GenC01.c_id_table_limit x_fb x_xa false x_tree'
+              (fs_init x_dflt) /\
+  match scan_tables x_fnmatch x_dflt x_cfg_nohl (TreeModel.img_compress 3) GenC01.c_id_table_limit x_fb x_xa false x_tree'
+                    (fs_init x_dflt) with
+  | TSer (Res.Ok tb) => length (tb_inodes tb) = 12%nat
+  | _ => False
+  end.
+Proof. exact ex_scan_tables_nohl. Qed.
+(* the hypotheses of pack_image_order_free on a concrete data path (C02.BpConcrete, serial pool) *)
+Example ex_pack_image_hyps :
+  fifo_laws x_hash BpConcrete.toy_compress (list BpModel.blk) BpModel.sp_submit
+            (BpModel.sp_dequeue (BpModel.process_block x_hash BpConcrete.toy_compress)) (fun x => x) /\
+  (forall nm, BpProofs.file_ok (x_host_file nm)).
+Proof. exact (conj x_serial_laws x_host_file_ok). Qed.
+(* ... and the conclusion computes: backlog 3 on one order against backlog 40 on the other, one image of 4096 bytes that
+   the format validator accepts and that reads back as the twelve paths (a and m one inode) *)
+Example ex_pack_image_order_free :
+  (0 <? FinishModel.c_block_size x_wc)%N = true /\
+  x_pack 3 x_tree = x_pack 40 x_tree' /\
+  match x_pack 40 x_tree' with
+  | IImage (Res.Ok w) =>
+      let b := FinishModel.image_bytes w in
+      ImageProofs.image_fits w = true /\
+      ValidModel.valid_image (TreeModel.img_uncompress 3) 4096 b = true /\
+      Common.lenN b = 4096%N /\ SuperModel.s_bytes_used (FinishModel.w_super w) = 2298%N /\
+      SuperModel.s_inode_count (FinishModel.w_super w) = 11%N /\ SuperModel.s_frag_count (FinishModel.w_super w) = 1%N /\
+      option_map (fun lt => map (fun x => (fst (fst x), snd x, pv_kind (snd (fst x)))) (flat_lt [] lt))
+                 (ReaderModel.read_image_tree (TreeModel.img_uncompress 3) b) =
+      Some [([], 11, TreeModel.LDir 0); ([nA], 5, TreeModel.LFile 0 300 0 0 0 []); ([nB], 6, TreeModel.LSlink [97]);
+            ([nC], 7, TreeModel.LIpc false); ([nD], 8, TreeModel.LDir 0); ([nD; nE], 2, TreeModel.LDir 0);
+            ([nD; nE; nF], 1, TreeModel.LFile 96 9000 0 0 300 [4; 4]);
+            ([nD; nX], 3, TreeModel.LFile 96 5000 0 0 1108 [4]);
+            ([nD; nY], 4, TreeModel.LFile 0 0 0 InodeModel.NOX InodeModel.NOX []);
+            ([nM], 5, TreeModel.LFile 0 300 0 0 0 []); ([nN], 9, TreeModel.LDev true 259);
+            ([nZ], 10, TreeModel.LFile 0 300 0 0 0 [])]%N
+  | _ => False
+  end.
+Proof. exact ex_pack_image. Qed.
+Example ex_scan_image_reads_back :
+  match scan_dir x_fnmatch x_dflt x_cfg true x_tree' (fs_init x_dflt) with
+  | Some (fs, stream) =>
+      length (ops_of_stream stream) = 11%nat /\
+      run_adds x_dflt (fs_init x_dflt) (ops_of_stream stream) = Some fs /\
+      input_okb 4096 x_dflt (ops_of_stream stream) = true /\
+      match post_process fs with
+      | POk pp => attached_okb 4096 x_fb x_xa pp = true /\ TreeModel.representable 4096 (to_img x_fb x_xa pp) = true
+      | _ => False
+      end
+  | None => False
+  end.
+Proof. exact ex_scan_reads_back. Qed.
+
+(* insert_sorted_sorted / insert_sorted_canonical with a NON-EMPTY base (audit finding 9): all premises stated, the
+   conclusion of insert_sorted_canonical holds and the result is sorted by insert_sorted_sorted *)
+Example ex_insert_canonical_hyps :
+  let l := [mk n_z; mk n_a] in let base := [mk n_m] in let other := [mk n_a; mk n_m; mk n_z] in
+  names_sorted base /\ NoDup (map node_name (l ++ base)) /\
+  Permutation other (l ++ base) /\ names_sorted other /\ other = add_children l base.
+Proof.
+  cbv zeta.
+  assert (B : names_sorted [mk n_m]) by (repeat constructor).
+  assert (N : NoDup (map node_name ([mk n_z; mk n_a] ++ [mk n_m]))).
+  { vm_compute. repeat constructor; simpl; intuition discriminate. }
+  split. exact B. split. exact N.
+  assert (E : [mk n_a; mk n_m; mk n_z] = add_children [mk n_z; mk n_a] [mk n_m]) by (vm_compute; reflexivity).
+  split.
+  - change ([mk n_z; mk n_a] ++ [mk n_m]) with ([mk n_z] ++ [mk n_a; mk n_m]).
+    apply Permutation_sym. apply (Permutation_app_comm [mk n_z] [mk n_a; mk n_m]).
+  - split; [|exact E]. rewrite E. apply insert_sorted_sorted; assumption.
+Qed.
+
+(* ---- post_process_order_free and the directory scan (audit finding 4) ----
+   post_process_order_free above carries the hypothesis [links_primary root l]; its comment called that "what the
+   directory scan produces".  No theorem says so, and in general it is false: scan_links_primary_refuted_with_prefix is a
+   scan into a sub directory of the image (a `glob /d ...` line: cfg.prefix = d) whose result violates links_primary,
+   because dir_hl.c hands out the link target without the prefix (NOTES.md "Other defects seen").  For scans WITHOUT a
+   prefix from the empty fstree it IS a theorem: scan_links_primary below (and NoDup of the queue with it), hence
+   scan_post_process_order_free.  For every fstree: both hypotheses of post_process_order_free are decidable
+   ([links_checkb], ImgScan/LinksCheck.v), so the theorem applies wherever the computable check passes. *)
+From SqfsV Require Import ImgScan.LinksCheck.
+
+Theorem post_process_order_free_checked : forall fs l',
+  links_checkb fs = true -> Permutation (fs_unres fs) l' ->
+  post_process (mkFs (fs_root fs) l') = post_process fs.
+Proof. exact post_process_order_free_checked_l. Qed.
+Print Assumptions post_process_order_free_checked.
+
+Theorem links_check_sound : forall fs,
+  links_checkb fs = true -> NoDup (fs_unres fs) /\ links_primary (fs_root fs) (fs_unres fs).
+Proof.
+  exact (fun fs H => match andb_prop _ _ H with
+                     | conj H1 H2 => conj (nodup_pathsb_sound _ H1) (links_primaryb_sound _ _ H2)
+                     end).
+Qed.
+Print Assumptions links_check_sound.
+
+(* p, q two names of one file; d/q, d/r two names of another; scanned with prefix d into an fstree holding /d: the link
+   d/d/r gets the target "d/q" (no prefix), which in the image names the hard link d/q *)
+Theorem scan_links_primary_refuted_with_prefix :
+  match lp_scan with
+  | Some (fs, _) =>
+      fs_unres fs = [[lp_d; lp_q]; [lp_d; lp_d; lp_r]] /\
+      ~ links_primary (fs_root fs) (fs_unres fs) /\ links_checkb fs = false
+  | None => False
+  end.
+Proof. exact prefix_scan_not_primary_l. Qed.
+Print Assumptions scan_links_primary_refuted_with_prefix.
+
+(* the check passes on the scans of the F09 witness (sorted iterator on one enumeration, unsorted on the other): the
+   hypotheses of post_process_order_free_checked are satisfiable by scan results with a queued link *)
+Example ex_scan_links_checked :
+  match scan_dir w_fnmatch w_dflt w_cfg true w_tree (fs_init w_dflt),
+        scan_dir w_fnmatch w_dflt w_cfg false w_tree_rev (fs_init w_dflt) with
+  | Some (fs, _), Some (fs', _) =>
+      links_checkb fs = true /\ fs_unres fs = [[n_z]] /\ links_checkb fs' = true /\ fs_unres fs' = [[n_a]]
+  | _, _ => False
+  end.
+Proof. exact witness_scan_checked. Qed.
+
+(* scan_links_primary: a scan without target prefix (--pack-dir, or a glob line for "/"), started from the empty fstree,
+   leaves an fstree that meets the hypotheses of post_process_order_free — links_unresolved without duplicates, no queued
+   hard link pointing at a hard link — for either native iterator and every configuration.  Hypothesis on the host tree
+   as it is walked ([hok_rootb], decidable): names within one directory pairwise distinct, every name other than "." and ".."
+   non-empty and without '/' (POSIX).  Proof (ImgScan/ScanLinks.v): invariant of the walk relating the (dev, ino) map of
+   the hard link filter to the tree — no hard link node sits at a recorded path, every hard link node's target is a
+   recorded path, every queued path is a hard link node — kept because the pre-order walk never returns to a path. *)
+From SqfsV Require Import ImgScan.ScanLinks.
+
+Theorem scan_links_primary :
+  forall (fnmatch : list N -> list N -> bool -> bool) dflt cfg (sorted : bool) (t : hnode) fs stream,
+  c_prefix cfg = [] -> hok_rootb (if sorted then canon t else t) = true ->
+  scan_dir fnmatch dflt cfg sorted t (fs_init dflt) = Some (fs, stream) ->
+  NoDup (fs_unres fs) /\ links_primary (fs_root fs) (fs_unres fs).
+Proof. exact scan_links_primary_l. Qed.
+Print Assumptions scan_links_primary.
+
+(* ... so post processing of a scanned directory does not depend on the order of links_unresolved: the composition of
+   post_process_order_free with the scan that the comment of that theorem promised *)
+Theorem scan_post_process_order_free :
+  forall (fnmatch : list N -> list N -> bool -> bool) dflt cfg (sorted : bool) (t : hnode) fs stream l',
+  c_prefix cfg = [] -> hok_rootb (if sorted then canon t else t) = true ->
+  scan_dir fnmatch dflt cfg sorted t (fs_init dflt) = Some (fs, stream) ->
+  Permutation (fs_unres fs) l' ->
+  post_process (mkFs (fs_root fs) l') = post_process fs.
+Proof. exact scan_post_process_order_free_l. Qed.
+Print Assumptions scan_post_process_order_free.
+
+(* the hypotheses hold for the eight-entry directory of ex_scan_order_free_image (a and m one inode) in both enumerations
+   and for both iterators; the scan queues the link m, and post processing it gives inode 5 to a *)
+Example ex_scan_links_primary :
+  c_prefix x_cfg = [] /\ hok_rootb (canon x_tree) = true /\ hok_rootb x_tree' = true /\
+  match scan_dir x_fnmatch x_dflt x_cfg false x_tree' (fs_init x_dflt) with
+  | Some (fs, _) => fs_unres fs = [[nA]] /\ links_checkb fs = true
+  | None => False
+  end /\
+  match scan_dir x_fnmatch x_dflt x_cfg true x_tree (fs_init x_dflt) with
+  | Some (fs, _) => fs_unres fs = [[nM]] /\ inum_of (Some (post_process fs)) [nA] = 5%nat
+  | None => False
+  end.
+Proof. vm_compute. repeat split; reflexivity. Qed.
